@@ -14,7 +14,18 @@ SEL_OPTS = ["dir=up,sim=no", "dir=up,sim=yes", "dir=down,rec=no,sim=no", "dir=do
             "dir=down,rec=yes,sim=no", "dir=down,rec=yes,sim=yes", "dir=down,rec=yes,optC=yes,sim=no", "dir=down,rec=yes,optC=yes,sim=yes"]
 
 
-def ta_text(a, name="A"):
+# state names: q<N>, or ("sfx") names that carry the suffixes _1 / _2 the tool itself appends when it renames the operands of a
+# union (a renaming that is not injective on such names merges two states in the printed result)
+SFX_NAMES = ["s", "s_1", "s_2", "s_1_1", "s_1_2", "s_2_1", "s_2_2", "t", "t_1", "t_2", "s_1_1_1", "t_2_2"]
+
+
+def sname(q, sfx=False):
+    if sfx and 0 <= q < len(SFX_NAMES):
+        return SFX_NAMES[q]
+    return "q%d" % q
+
+
+def ta_text(a, name="A", sfx=False):
     syms = []
     for r in a["rules"]:
         s = "%s:%d" % (r[0], len(r[1]))
@@ -24,21 +35,21 @@ def ta_text(a, name="A"):
     for r in a["rules"]:
         st.add(r[2])
         st.update(r[1])
-    lines = ["Ops " + " ".join(syms), "", "Automaton " + name, "States " + " ".join("q%d" % q for q in sorted(st)),
-             "Final States " + " ".join("q%d" % q for q in a["fin"]), "Transitions"]
+    lines = ["Ops " + " ".join(syms), "", "Automaton " + name, "States " + " ".join(sname(q, sfx) for q in sorted(st)),
+             "Final States " + " ".join(sname(q, sfx) for q in a["fin"]), "Transitions"]
     for r in a["rules"]:
-        lines.append((r[0] if not r[1] else "%s(%s)" % (r[0], ",".join("q%d" % k for k in r[1]))) + " -> q%d" % r[2])
+        lines.append((r[0] if not r[1] else "%s(%s)" % (r[0], ",".join(sname(k, sfx) for k in r[1]))) + " -> " + sname(r[2], sfx))
     return "\n".join(lines) + "\n"
 
 
-def nfa_text(a, name="A"):
+def nfa_text(a, name="A", sfx=False):
     lines = ["Ops x:0 " + " ".join(sorted(set("%s:1" % e[1] for e in a["delta"]))), "", "Automaton " + name,
-             "States " + " ".join("q%d" % q for q in sorted(set(a["start"]) | set(a["fin"]) | set(e[0] for e in a["delta"]) | set(e[2] for e in a["delta"]))),
-             "Final States " + " ".join("q%d" % q for q in a["fin"]), "Transitions"]
+             "States " + " ".join(sname(q, sfx) for q in sorted(set(a["start"]) | set(a["fin"]) | set(e[0] for e in a["delta"]) | set(e[2] for e in a["delta"]))),
+             "Final States " + " ".join(sname(q, sfx) for q in a["fin"]), "Transitions"]
     for q in a["start"]:
-        lines.append("x -> q%d" % q)
+        lines.append("x -> " + sname(q, sfx))
     for e in a["delta"]:
-        lines.append("%s(q%d) -> q%d" % (e[1], e[0], e[2]))
+        lines.append("%s(%s) -> %s" % (e[1], sname(e[0], sfx), sname(e[2], sfx)))
     return "\n".join(lines) + "\n"
 
 
@@ -208,7 +219,8 @@ def ta_op_events(cases, rd, repr_="expl"):
         i, c = ic
         cmd = c["cmd"]
         fa = os.path.join(d, "oa%d.txt" % i)
-        txt = ta_text(c["A"], "A")
+        sfx = (i % 3 == 0)
+        txt = ta_text(c["A"], "A", sfx)
         if cmd == "cmpl" and c.get("syms"):
             # the alphabet of the complement is what the Ops line declares (incl. unused symbols)
             lines = txt.splitlines()
@@ -218,7 +230,7 @@ def ta_op_events(cases, rd, repr_="expl"):
         files = [fa]
         if "B" in c and cmd in ("union", "isect"):
             fb = os.path.join(d, "ob%d.txt" % i)
-            open(fb, "w").write(ta_text(c["B"], "B"))
+            open(fb, "w").write(ta_text(c["B"], "B", sfx))
             files.append(fb)
         args = ["-r", repr_]
         if cmd == "load-p":
@@ -275,11 +287,12 @@ def fa_op_events(cases, rd):
         i, c = ic
         cmd = c["cmd"]
         fa = os.path.join(d, "na%d.txt" % i)
-        open(fa, "w").write(nfa_text(c["A"], "A"))
+        sfx = (i % 3 == 0)
+        open(fa, "w").write(nfa_text(c["A"], "A", sfx))
         files = [fa]
         if "B" in c and cmd in ("union", "isect"):
             fb = os.path.join(d, "nb%d.txt" % i)
-            open(fb, "w").write(nfa_text(c["B"], "B"))
+            open(fb, "w").write(nfa_text(c["B"], "B", sfx))
             files.append(fb)
         args = ["-r", "expl_fa"] + (["-p", "load"] if cmd == "load-p" else ["-s", "load"] if cmd == "load-s" else [cmd])
         out, st = run_vata(args + files)
